@@ -319,6 +319,13 @@ class _Split(SubCheck):
                 ps = ch = None
                 lines.append("%s\t%s\n" % (nm, wd))
             entry[nm] = (wd, ps, ch)
+        fillers = {}
+        if mode == "largest" and cols == 4 and e.bit("fillers"):
+            # two further tagged reads that are not in the input: they make chr2/2000 the largest block of chr2, so that an
+            # entry of chr2/1000 lies outside the largest block of ITS chromosome while 1000 may be the largest block of chr1
+            for nm in ("fillX", "fillY"):
+                lines.append("%s\tH1\t2000\tchr2\n" % nm)
+                fillers[nm] = ("H1", "2000", "chr2")
         if shape.get("rev"):
             lines.reverse()
         if header:
@@ -345,10 +352,12 @@ class _Split(SubCheck):
         selected_block = {}
         if largest:
             sizes = {}
-            for nm, (wd, ps, ch) in entry.items():
+            for nm, (wd, ps, ch) in list(entry.items()) + list(fillers.items()):
                 if wd != "none":
                     sizes.setdefault(ch, {}).setdefault(ps, 0)
                     sizes[ch][ps] += 1
+            if fillers and any(ch == "chr2" and ps == "1000" and wd != "none" for wd, ps, ch in entry.values()) and any(ch == "chr1" and ps == "1000" and wd != "none" for wd, ps, ch in entry.values()):
+                e.cover("phase set id that is the largest block on one chromosome and a smaller one on another")
             for ch, by_ps in sizes.items():
                 top = max(by_ps.values())
                 best = [ps for ps, c in by_ps.items() if c == top]
@@ -591,6 +600,7 @@ class Largest(_Split):
         "tagged read outside the largest block",
         "chromosome with two phase sets",
         "duplicate read name",
+        "phase set id that is the largest block on one chromosome and a smaller one on another",
     ]
 
     def shapes(self, tier):
@@ -604,7 +614,7 @@ class Largest(_Split):
         return _big_first(out)
 
     def bounds(self, tier):
-        return "--only-largest-block with a 4-column list: reads <= %d from a pool of 3 names, every tagged entry in one of the blocks chr1/1000, chr1/2000, chr2/1000 (solver-chosen); options as in dist; histogram not requested; %d shapes" % (2 if tier == "quick" else 3, len(self.shapes(tier)))
+        return "--only-largest-block with a 4-column list: reads <= %d from a pool of 3 names, every tagged entry in one of the blocks chr1/1000, chr1/2000, chr2/1000 (solver-chosen), optionally two further list-only entries in chr2/2000; options as in dist; histogram not requested; %d shapes" % (2 if tier == "quick" else 3, len(self.shapes(tier)))
 
 
 SUBCHECKS = {c.name: c for c in [Dist(), Hist(), Largest()]}
